@@ -24,7 +24,7 @@ ASSUMPTIONS = [
 ]
 STRIDES = {"quick": 64, "thorough": 512}
 MAXSIZE = {"quick": 4, "thorough": 5}
-NRANDOM = {"quick": 1500, "thorough": 60000}
+NRANDOM = {"quick": 12000, "thorough": 200000}
 MALFORMED = 40
 
 
